@@ -279,6 +279,34 @@ def install():
         wrap(c, "_load_from_buffer", "bufload")
         wrap(c, "_save_to_buffer", "bufsave")
         wrap(c, "_flush", "flush")
+    # the file-system primitives as seen by the JSON backend: open (file created / truncated, nothing
+    # written yet) and os.replace are yield points too
+    import builtins
+
+    def open_(path, mode="r", *a, **kw):
+        f = builtins.open(path, mode, *a, **kw)
+        s_ = CUR
+        if s_ is not None and any(c in str(mode) for c in "wax+"):
+            t = s_.by_ident.get(threading.get_ident())
+            if t is not None:
+                s_.yield_point(t, "opened", os.path.basename(str(path)))
+        return f
+    L.json.open = open_
+    POINTS["collection_json.open"] = "ok"
+
+    class _OS:
+        def __getattr__(self, k):
+            return getattr(os, k)
+
+        def replace(self, src, dst, *a, **kw):
+            s_ = CUR
+            if s_ is not None:
+                t = s_.by_ident.get(threading.get_ident())
+                if t is not None:
+                    s_.yield_point(t, "replace", os.path.basename(str(dst)))
+            return os.replace(src, dst, *a, **kw)
+    L.json.os = _OS()
+    POINTS["collection_json.os.replace"] = "ok"
     cc = L.utils._CounterContext
     for name, kind in (("__enter__", "susp+"), ("__exit__", "susp-")):
         orig = cc.__dict__[name]
